@@ -12,6 +12,8 @@ def kf_rec(r):
 
 
 def run(ctx):
+    if ctx.replay:
+        return ac.replay(ctx, 'score', ['zero'], kf_rec=kf_rec)
     # (1) design theorems: the DP score is the score of an existing alignment, never above the best one; V1 and the
     #     exact family are scored as the occurrence they report (by construction: SpanResult)
     ac.model_check(ctx, ["MC_Algo_quick.cfg"] if ctx.quick else ["MC_Algo.cfg", "MC_Algo_p3.cfg"], workers=ac.par(ctx) * 2)
